@@ -24,6 +24,7 @@ type c04Op struct {
 	From     string         `json:"from,omitempty"`
 	Blob     int            `json:"blob,omitempty"`
 	Dash     bool           `json:"dash_digest,omitempty"` // digest sent in the accepted sha256-<hex> spelling
+	Upper    bool           `json:"upper_digest,omitempty"` // digest sent with upper-case hex digits
 	Template string         `json:"template,omitempty"`
 	System   string         `json:"system,omitempty"`
 	License  any            `json:"license,omitempty"`
@@ -73,7 +74,7 @@ func c04Gen(r *kit.Rand, idx int) c04Case {
 			// repeated correct upload: neither may touch what is stored
 			op = c04Op{Op: "upload", Blob: r.Intn(3), From: kit.Pick(r, []string{"upper", "other", "dash-upper", "same", "short"})}
 		case k < 5 || len(live) == 0:
-			op = c04Op{Op: "create-files", Name: pick(), Blob: r.Intn(3), Dash: r.Chance(1, 6)}
+			op = c04Op{Op: "create-files", Name: pick(), Blob: r.Intn(3), Dash: r.Chance(1, 6), Upper: r.Chance(1, 6)}
 		case k < 8:
 			op = c04Op{Op: "create-from", Name: pick(), From: kit.Pick(r, live)}
 			if r.Chance(1, 3) {
@@ -235,6 +236,11 @@ func c04Run(bin, work string, c *c04Case, seed uint64, rep *kit.Report) (vs []c0
 			}
 			if op.Dash {
 				d = strings.Replace(d, ":", "-", 1)
+			}
+			if op.Upper {
+				// the digest pattern admits upper-case hex: whether create accepts or refuses that spelling,
+				// the store must stay consistent (references are compared as strings, files are named in lower case)
+				d = d[:7] + strings.ToUpper(d[7:])
 			}
 			req := map[string]any{"model": op.Name, "files": map[string]string{"model.gguf": d}}
 			c04Overrides(req, op)
@@ -529,7 +535,7 @@ func runC04() {
 	rep := kit.NewReport("C04")
 	cfg := rep.Cfg()
 	defer rep.Flush()
-	rep.Set("rule", "case i = PRNG(seed,'C04',i): 7-15 operations through the public API of the real server binary over a pool of 12 names (case variants, namespaces, a second host) x 6 tags: create from uploaded GGUF blobs (pool of 3, digest sent as sha256:<hex> or sha256-<hex>), create from an existing model with template/system/license/parameter overrides, copy, delete (also by case variant), blob uploads under a digest that does not match the content (other letter case, another digest, too short) or repeated correct uploads, fault-free pull of published models that share blobs with the created ones, show, planted debris (an empty or truncated manifest file under a sibling tag of an existing model, as an interrupted create/copy/pull leaves it), restart (start-up prune, or OLLAMA_NOPRUNE); every history ends with a pruning restart. After every operation the store directory is read and re-hashed: every listed model shows and has all layers + config with matching size/SHA-256; manifests and blobs of models not named by the operation are byte-identical; after a pruning restart blobs == referenced digests; no two listed names equal under case folding; created => listed, deleted => not listed, copied => same manifest. Non-trivial & distinct = distinct (op-kind sequence, outcomes) among histories in which at least two models shared a blob when a delete/create/prune ran")
+	rep.Set("rule", "case i = PRNG(seed,'C04',i): 7-15 operations through the public API of the real server binary over a pool of 12 names (case variants, namespaces, a second host) x 6 tags: create from uploaded GGUF blobs (pool of 3, digest sent as sha256:<hex> or sha256-<hex>, sometimes with upper-case hex), create from an existing model with template/system/license/parameter overrides, copy, delete (also by case variant), blob uploads under a digest that does not match the content (other letter case, another digest, too short) or repeated correct uploads, fault-free pull of published models that share blobs with the created ones, show, planted debris (an empty or truncated manifest file under a sibling tag of an existing model, as an interrupted create/copy/pull leaves it), restart (start-up prune, or OLLAMA_NOPRUNE); every history ends with a pruning restart. After every operation the store directory is read and re-hashed: every listed model shows and has all layers + config with matching size/SHA-256; manifests and blobs of models not named by the operation are byte-identical; after a pruning restart blobs == referenced digests; no two listed names equal under case folding; created => listed, deleted => not listed, copied => same manifest. Non-trivial & distinct = distinct (op-kind sequence, outcomes) among histories in which at least two models shared a blob when a delete/create/prune ran")
 	rep.Set("assumptions", []string{"operations are issued one at a time (concurrent store operations are C15's subject)", "create-from is only issued for sources that exist (a missing source would contact the public registry)"})
 	bin := os.Getenv("VERIF_OLLAMA_BIN")
 	work, err := os.MkdirTemp("", "verif-c04-")
